@@ -191,6 +191,9 @@ def main():
                             undec.append('harness %s produced no result (anchor lost or harness not found)' % h)
                             continue
                         hres = r['harnesses'][h]
+                        if not hres['checks']:
+                            undec.append('harness %s: the verifier reported status %s without any check result (crash / out of memory / timeout)' % (h, hres['status']))
+                            continue
                         d, f, u, cov, n, unr = classify(pid, h, hc, hres, P.OBLIGATIONS)
                         for cd, cst in cov:
                             cover_status.setdefault(cd, []).append((cst, h, bool(f) or hres['status'] != 'Success'))
